@@ -76,7 +76,7 @@ def read_tables(scratch, nat):
 def check(scratch, nat, a, t0):
     qs = Q.QueryStats()
     info = {"functions": {}, "paths": {}, "validation_vectors": {}, "models": {}}
-    timeout_ms = 20000 if a.tier == "quick" else 120000
+    timeout_ms = 60000 if a.tier == "quick" else 180000
     findings = []
     disp, decl = read_tables(scratch, nat)
     info["tables"] = {"dispatch_entries": len(disp), "declared_entries": len(decl)}
